@@ -186,15 +186,33 @@ def full_product(ctx):
     fn = ctx.func(q)
     ps = params(fn)
     loops = [n for n in walk_shallow(fn) if isinstance(n, ast.For)]
-    if not loops:
-        raise Unknown(q, "no term loop found", fn)
-    outer = loops[0]
-    iter_src = un(outer.iter) + " ".join(un(g.iter) for n in ast.walk(outer.iter) if isinstance(n, ast.GeneratorExp) for g in n.generators)
-    inner = [n for n in ast.walk(outer) if isinstance(n, ast.For) and n is not outer]
-    all_iters = iter_src + " ".join(un(n.iter) for n in inner)
-    for p in ps[:2]:
-        if f"{p}.items()" not in all_iters:
-            raise Unknown(q, f"the term loop does not iterate {p}.items()", outer)
+    outer = loops[0] if loops else None
+    recognised = outer is not None
+    if recognised:
+        iter_src = un(outer.iter) + " ".join(un(g.iter) for n in ast.walk(outer.iter) if isinstance(n, ast.GeneratorExp) for g in n.generators)
+        inner = [n for n in ast.walk(outer) if isinstance(n, ast.For) and n is not outer]
+        all_iters = iter_src + " ".join(un(n.iter) for n in inner)
+        recognised = all(f"{p}.items()" in all_iters for p in ps[:2])
+    if not recognised:
+        # the loop is written in another style (a generator of terms, helper functions, ...): decide the clause itself -
+        # every pair of stored blades contributes exactly one term - by running the function on operands for which no
+        # pair is filtered or vanishes and counting the terms of the result
+        sig, xk, yk = [1, 1, 1], (1, 2, 4, 7, 3), (0, 3, 5, 6, 7, 1)
+        c = q + "#loop"
+        got = run_product(ctx, ctx.repo, "codegen_product", sig, xk, yk, c)
+        if got[0] == "raise":
+            ctx.violation(c, f"codegen_product raises {got[1]} on full-contribution operands", fn)
+            return
+        terms = sum(len(p.terms) for p in got[1].values())
+        want = spec_product(sig, xk, yk)
+        if got[1] == want and terms == len(xk) * len(yk):
+            ctx.ok(c, fn, decided_by="evaluation on operands where all pairs contribute", terms=terms)
+        else:
+            ctx.violation(c, f"on operands where every one of the {len(xk) * len(yk)} blade pairs contributes a distinct term the result has "
+                             f"{terms} terms / differs from the bilinear extension: pairs of stored blades are skipped or visited twice", fn)
+        return
+    if False:
+        pass
     for sl in ast.walk(outer.iter):
         if isinstance(sl, ast.Subscript) and isinstance(sl.slice, ast.Slice):
             ctx.violation(q + "#loop", f"the term loop iterates a slice ({un(sl)}): pairs of stored blades are skipped", outer)
